@@ -13,7 +13,8 @@ LEAN_PROOFS = ['Proofs.C20']
 GEN_ITEMS = []
 RULE = ('op lines = (helper, list / item list, k / p / target), call sequences; distinct lines; non-trivial = the implementation '
         'returned a value (not an exception)')
-TRUSTED = ['Spec.Perms / Spec.Knapsack (plain list recursions for arrangements, combinations, lexicographic successor, subset sums)',
+TRUSTED = ['Spec.Perms / Spec.Knapsack (plain list recursions for arrangements, combinations, subset sums); the brute-force successor Spec.Perms.nextArr echoed for '
+           'nextperm lines is NOT trusted: nextperm_eq_nextArr proves it equal to the model result for every list, and nextperm_succ/nextperm_unique say what that is',
            'generators are modelled as the list of their yields; object identity of the in-place list is checked by the stream only']
 ASSUMPTIONS = ['list elements and item objects are ints on the wire; weights of the property domain are positive ints',
                'k >= 0 and 0 <= p <= len(l) (the code asserts it); combink with k > 0 ("k-deep") is compared code<->model only',
@@ -305,7 +306,8 @@ LEVEL_TEXT = ('Lean 4 theorems about Model.Perms / Model.Knapsack (hand-written 
               'list, depth, p and target; tied to the current source by a correspondence stream that enumerates all lists over {0,1,2} '
               'up to length 5-7, all k and p, random item lists with every target, and call sequences in one process, and that evaluates '
               'itertools / brute-force references on the real code.')
-LEVEL_NOTE = ('Trusted: Lean kernel; axioms ⊆ {propext, Classical.choice, Quot.sound}; Spec.Perms/Spec.Knapsack; runcheck.py/props/C20.py. '
+LEVEL_NOTE = ('Trusted: Lean kernel; axioms ⊆ {propext, Classical.choice, Quot.sound}; Spec.Perms/Spec.Knapsack (perms/combs tied to Mathlib permutations/sublistsLen, nextArr tied to '
+              'the successor theorems by nextperm_eq_nextArr); runcheck.py/props/C20.py. '
               'dynprog re-uses items (known finding C20-dynprog-reuse): proved minimal among collections WITH repetition only (dynprog_partial), '
               'with a kernel-checked witness that the result is not a sub-collection. Theorem list: evidence/C20.json coverage.theorems.')
 TECHNIQUE = 'Lean 4 proof (induction over the in-place loops with closed forms of the rotations, list-permutation reasoning) + correspondence check with histories'
